@@ -628,7 +628,12 @@ def check_full_rank(case, ctx):
                       lambda: f"reference rank {big} < {cols} variables, shape {rows}x{cols}")
             ctx.nontrivial(True)
         else:
+            # fewer probability rows than variables: rank <= rows < cols whatever the rounding, so the set is not
+            # informationally complete and "full rank" (= full column rank, what the estimators need to invert A^T A)
+            # must be False.  (Before /repo commit bad2d2c the function compared with min(shape) and said True here.)
             ctx.label("ic:False:fewer-rows-than-columns")
+            ctx.check(not got, f"not_full_rank_when_fewer_rows_than_variables:{c.tomo}", lambda: f"shape {rows}x{cols}")
+            ctx.nontrivial(True)
 
 
 # ============================================================================= strategies
@@ -727,10 +732,11 @@ def counts_list(draw, k, m_lo, m_hi, mixed):
 
 @st.composite
 def candidate(draw, tomo, shape, m):
+    dense = draw(st.integers(0, 3)) > 0
     if tomo == "qst":
-        return draw(gen.state_case((shape,)))
+        return draw(dense_state_case(shape)) if dense else draw(gen.state_case((shape,)))
     if tomo == "povmt":
-        return draw(gen.povm_case((shape,), (m, m)))
+        return draw(dense_povm_case(shape, m)) if dense else draw(gen.povm_case((shape,), (m, m)))
     if tomo == "qpt":
         return draw(gen.gate_case((shape,), max_rank=3))
     return draw(gen.mprocess_case((shape,), (m, m), max_per=2))
@@ -905,28 +911,28 @@ FACETS = {
     "affine_equality": {
         "strategy": affine_case,
         "check": check_affine,
-        "budget": {"quick": {"examples": 480, "shards": 16}, "thorough": {"examples": 8000, "shards": 16}},
+        "budget": {"quick": {"examples": 480, "shards": 16}, "thorough": {"examples": 5000, "shards": 16}},
         "nontrivial": "scheduled outcome counts not all equal, or schedule list not 'all', or on_para_eq_constraint=True",
         "min_nontrivial": 40,
     },
     "prob_dists": {
         "strategy": probs_case,
         "check": check_prob_dists,
-        "budget": {"quick": {"examples": 600, "shards": 8}, "thorough": {"examples": 12000, "shards": 16}},
+        "budget": {"quick": {"examples": 600, "shards": 8}, "thorough": {"examples": 6000, "shards": 16}},
         "nontrivial": "scheduled outcome counts not all equal, or schedule list not 'all', or on_para_eq_constraint=True",
         "min_nontrivial": 40,
     },
     "shape": {
         "strategy": shape_case,
         "check": check_shape,
-        "budget": {"quick": {"examples": 320, "shards": 8}, "thorough": {"examples": 6000, "shards": 16}},
+        "budget": {"quick": {"examples": 320, "shards": 8}, "thorough": {"examples": 3000, "shards": 16}},
         "nontrivial": ">= 10 schedules, or >= 10 outcomes in one schedule",
         "min_nontrivial": 30,
     },
     "full_rank": {
         "strategy": rank_case,
         "check": check_full_rank,
-        "budget": {"quick": {"examples": 400, "shards": 8}, "thorough": {"examples": 8000, "shards": 16}},
+        "budget": {"quick": {"examples": 400, "shards": 8}, "thorough": {"examples": 4000, "shards": 16}},
         "nontrivial": "reference rank verdict outside the singular-value margin and is_fullrank_matA asserted",
         "min_nontrivial": 30,
     },
